@@ -75,6 +75,7 @@ def generate(ck):
     # only THEN: the second transient is as real as the first
     descs.append({"cls": "single", "table": {"kind": "synthetic", "family": "ideal", "prm": [0.5, 0.5, 0.5], "n": 200, "p_lo": 100.0, "p_hi": 9100.0, "grid": "uniform", "seed": 0}, "nx": 40, "p_i": 8000.0, "p_f": 2000.0, "r": 8, "t_end": 100.0, "levels": [4000.0, 2000.0]})
     descs.append({"cls": "single", "table": {"kind": "synthetic", "family": "zlin", "prm": [0.4, 0.4, 0.5], "n": 200, "p_lo": 100.0, "p_hi": 9100.0, "grid": "uniform", "seed": 0}, "nx": 25, "p_i": 7000.0, "p_f": 3000.0, "r": 8, "t_end": 240.0, "levels": [5000.0, 3000.0, 6000.0]})
+    descs.append(dict(descs[1], time_arg=500.0))
     descs.append(dict(descs[1], t0=1.0))
     descs.append(dict(descs[2], t0=1e-3))
     descs.append(dict(descs[0], decoy=True, ratio=0.5))
@@ -109,6 +110,8 @@ def generate(ck):
             d["levels"] = [float(v) for v in lv]
         if i % 6 == 1:
             d["t0"] = float(rng.choice([1e-3, 1.0, 37.5, 1e4]))
+        if i % 8 == 3:
+            d["time_arg"] = float(rng.choice([500.0, 0.01, 3.0]))
         if d["levels"] and i % 7 == 4:
             d["t_end"] = float(rng.uniform(60, 150)) * len(d["levels"])  # every level held until fully relaxed
         descs.append(d)
@@ -238,8 +241,15 @@ def _one(ck, desc, nx):
         p_other = max(lo_tab, p_min - 0.6 * (p_min - lo_tab)) if p_min - lo_tab > 0.2 * (p_i - p_min) else 0.5 * (p_min + p_i)
         _decoy(ck, desc, res, lambda: sim.simulate(SinglePhaseReservoir(nx, p_other, p_i, fluid), 0.3 * t, None))
     with np.errstate(all="ignore"):
-        rf = np.array(res.recovery_factor(), copy=True)
-        rfd = np.array(res.recovery_factor(density=True), copy=True)
+        if desc.get("time_arg"):
+            # the method's optional `time` argument, given other report times of the same length (days
+            # where the simulation ran on days / tau): the two recoveries still describe one quantity
+            q_ = np.asarray(t, dtype=float) * float(desc["time_arg"])
+            rf = np.array(res.recovery_factor(time=q_), copy=True)
+            rfd = np.array(res.recovery_factor(time=q_, density=True), copy=True)
+        else:
+            rf = np.array(res.recovery_factor(), copy=True)
+            rfd = np.array(res.recovery_factor(density=True), copy=True)
     pp = sim.SIM_EVENTS[-1]["pp"] if sim.SIM_EVENTS else None
     return {"t": t, "rf": rf, "rfd": rfd, "p_f": p_f, "p_i": p_i, "fluid": fluid, "tab": tab, "sched": sched, "starts": starts, "levels": levels, "pp": pp}
 
